@@ -106,7 +106,16 @@ def handleSave (cmd : String) (args : List SExp) : String :=
           let d := match partdescToBytes ⟨p.difi, p.ivfc, p.dpfs, p.master⟩ p.descSize with
             | some pd => decide (c.tableOff + p.descOff + pd.length ≤ p.pOff)
             | none => false
-          "p" ++ toString p.index ++ ":" ++ (if g then "g" else "-") ++ (if lay then "l" else "-") ++ (if d then "d" else "-"))
+          -- ... and those of the re-open theorems (C18_reopen_diff / C18_reopen_disa)
+          let t := tablesApartB p.dpfs p.tree
+          let w := descWFB ⟨p.difi, p.ivfc, p.dpfs, p.master⟩ p.descSize
+          let r := decide (0x200 ≤ c.tableOff) && decide (c.tableOff + c.tableSize ≤ p.pOff) && decide (p.pOff ≤ c.F.length) &&
+            decide (p.descOff + p.descSize ≤ c.tableSize) &&
+            c.parts.all (fun q => q.index == p.index ||
+              (decide (q.descOff + q.descSize ≤ p.descOff ∨ p.descOff + p.descSize ≤ q.descOff) &&
+               decide (c.tableOff + c.tableSize ≤ q.pOff) && decide (q.pOff + q.pSize ≤ p.pOff ∨ p.pOff + p.pSize ≤ q.pOff)))
+          "p" ++ toString p.index ++ ":" ++ (if g then "g" else "-") ++ (if lay then "l" else "-") ++ (if d then "d" else "-") ++
+            (if t then "t" else "-") ++ (if w then "w" else "-") ++ (if r then "r" else "-"))
     | _, _ => "bad-args"
   | "cmac", [k, m] =>
     match k.bytes?, m.bytes? with
